@@ -321,7 +321,8 @@ func c19TraceLine(work, line string, lineNo int, r *rng, every int, session *her
 	days, emitted := 0, 0
 	minBD, maxBD := math.Inf(1), math.Inf(-1)
 	var wref weatherRef
-	refDays, radMissingDays, surfFails, tbaseFails := 0, 0, 0, 0
+	refDays, radMissingDays, surfFails, tbaseFails, bdFails := 0, 0, 0, 0, 0
+	var bd0 []float64
 	confT, confFrom := 8.7, "default"
 	tbaseSeen := map[uint64]float64{}
 	useRef := false
@@ -357,6 +358,17 @@ func c19TraceLine(work, line string, lineNo int, r *rng, every int, session *her
 			if every <= 1 || r.intn(every) == 0 || days <= 2 {
 				emit(c)
 				emitted++
+			}
+			// the bulk density of every 10-cm layer is the soil file's on EVERY day (nothing but Input assigns BD)
+			if bd0 == nil {
+				bd0 = append([]float64{}, pre.BD[:n]...)
+			}
+			if !sameFloats(g.BD[:n], bd0) || !sameFloats(pre.BD[:n], bd0) {
+				if bdFails == 0 {
+					oracleFail("bulk-density:traced-line-%d day=%d the layer densities changed during the run: first day %v, now %v", lineNo, days, bd0, g.BD[:n])
+					emit(jobj{"k": "bdday", "line": lineNo, "day": days, "bd": hxs(g.BD[:n])})
+				}
+				bdFails++
 			}
 			// the lower boundary is the configured annual mean temperature, on every day
 			tbaseSeen[math.Float64bits(g.TBASE)] = g.TBASE
@@ -425,7 +437,7 @@ func c19TraceLine(work, line string, lineNo int, r *rng, every int, session *her
 	hermes.VerifProbe = nil
 	o := jobj{"k": "run", "line": lineNo, "success": res.Success, "err": res.Err, "days": days, "emitted": emitted,
 		"weather_ref_days": refDays, "radiation_missing_days": radMissingDays, "surface_mismatch_days": surfFails,
-		"shared_session": session != nil, "tbase_configured": hx(confT), "tbase_configured_value": confT, "tbase_from": confFrom, "tbase_mismatch_days": tbaseFails}
+		"shared_session": session != nil, "bd_changed_days": bdFails, "tbase_configured": hx(confT), "tbase_configured_value": confT, "tbase_from": confFrom, "tbase_mismatch_days": tbaseFails}
 	seen := []string{}
 	for _, v := range tbaseSeen {
 		seen = append(seen, hx(v))
